@@ -154,6 +154,7 @@ structure Act where
 runs off its end -/
 structure ActOK (s : St) (a : Act) : Prop where
   step : StepVerified (fnB s a.f) a.ann
+  entry : ∃ t, annAt a.ann 0 = some t ∧ (fnB s a.f).entry.le t = true
   len : a.ann.length = (fnB s a.f).code.length + 1
   noEnd : annAt a.ann (fnB s a.f).code.length = none
   user : (fnOf s a.f).user = false
@@ -163,7 +164,7 @@ structure ActOK (s : St) (a : Act) : Prop where
 theorem ActOK.ext {s s' : St} {a : Act} (h : ActOK s a) (he : TExt s s') : ActOK s' a := by
   have hb := fnB_stable he a.f h.idx h.code
   have hf := he.fnOf a.f h.idx
-  exact ⟨by rw [hb]; exact h.step, by rw [hb]; exact h.len, by rw [hb]; exact h.noEnd, by rw [hf]; exact h.user,
+  exact ⟨by rw [hb]; exact h.step, by rw [hb]; exact h.entry, by rw [hb]; exact h.len, by rw [hb]; exact h.noEnd, by rw [hf]; exact h.user,
     Nat.lt_of_lt_of_le h.idx he.fns_len, by rw [hf]; exact h.code.mono he.sz⟩
 
 /-- what a `runLoop` was started on: the stacks of the pseudo caller and where it resumes -/
